@@ -128,6 +128,29 @@ T_RespBackendDone ==
      \/ req[Ev.r].stage \in TailStages /\ UNCHANGED vars
   /\ UNCHANGED <<sw, sa, killReq>>
 
+\* Exchanges with more steps than "request, then response" (ctl thread, program order):
+\*   GateOpen : the backend of the parked exchange is let go (its next message - interim response, 101, early or
+\*              first pipelined answer - leaves now); no step of the specification by itself
+\*   Interim  : the client holds a complete interim response (Backend_Interim; a further 103 changes nothing)
+\*   SlotMid  : the client holds the complete answer to the first of two pipelined requests (Backend_Respond of a
+\*              "pipelined" slot); the second request, written long ago, is then what the slot is about
+T_GateOpen == Ev.e = "GateOpen" /\ Consume /\ UNCHANGED <<vars, sw, sa, killReq>>
+
+T_Interim ==
+  /\ Ev.e = "Interim" /\ Consume
+  /\ sw[Ev.r] = "old"
+  /\ (Ev.code = 100) <=> (req[Ev.r].stage = "expectHead")
+  /\ \/ Backend_Interim(Ev.r)
+     \/ /\ oldPhase \in LiveOld /\ Occupied(Ev.r) /\ req[Ev.r].stage \in {"hinted", "h2Hinted"}
+        /\ UNCHANGED vars
+  /\ UNCHANGED <<sw, sa, killReq>>
+
+T_SlotMid ==
+  /\ Ev.e = "SlotMid" /\ Consume
+  /\ sw[Ev.r] = "old" /\ Ev.out = "done" /\ Ev.by = "old"
+  /\ req[Ev.r].stage = "pipelined" /\ Backend_Respond(Ev.r)
+  /\ UNCHANGED <<sw, sa, killReq>>
+
 \* outcomes of a parked exchange:  done    the complete response, every byte in its place
 \*                                 short   a clean end (close of a close-delimited response, END_STREAM) after LESS
 \*                                         than the backend sent: a truncation the client cannot see
@@ -140,7 +163,8 @@ T_SlotEnd ==
   /\ sw' = [sw EXCEPT ![Ev.r] = "finished"]
   /\ \/ \* complete answer relayed by the old worker (a large one: the client has read the buffered tail)
         /\ Ev.out = "done" /\ Ev.by = "old" /\ Ev.be = "old" /\ sw[Ev.r] = "old"
-        /\ oldPhase \in LiveOld /\ Occupied(Ev.r) /\ req[Ev.r].stage \in {"awaitResp", "h2Await"} \cup TailStages
+        /\ oldPhase \in LiveOld /\ Occupied(Ev.r)
+        /\ req[Ev.r].stage \in ((RespondStages \ {"pipelined"}) \cup TailStages)
         /\ req' = [req EXCEPT ![Ev.r] = [@ EXCEPT !.st = "done"]]
      \/ \* a response that ended clean but short: only the specification's "short" (a deviation) or the death of
         \* the worker in the middle of a close-delimited response explain it
@@ -224,6 +248,7 @@ T_HamStop == Ev.e = "HamStop" /\ Consume /\ UNCHANGED <<vars, sw, sa, killReq>>
 T_Ctl ==
   /\ run <= NRuns /\ lc < Len(Ctl)
   /\ \/ T_SlotOpen \/ T_SlotRelease \/ T_SlotEnd \/ T_RespPart \/ T_RespBackendDone
+     \/ T_GateOpen \/ T_Interim \/ T_SlotMid
      \/ T_ReturnSent \/ T_ReturnResp \/ T_Received \/ T_SoftStopSent \/ T_SuccStarted \/ T_Activated
      \/ T_StopResp \/ T_OldExited \/ T_OldKilled \/ T_Deadline \/ T_Probe \/ T_HamStop
 
